@@ -94,6 +94,15 @@ def r_reset(P, chk):
                 if z is not None:
                     clear_blocks.add(rpos[z["i"]][0])
 
+        for c in reset.calls():
+            h = P.resolve(reset, c.get("callee")) if c.get("callee") else None
+            if h is None or not P.first_party(h) or h is reset or c.get("i") not in rpos:
+                continue
+            hc = cleared_in(h)
+            for i, q in enumerate(h.params):
+                if q[0] in hc and i < len(c["c"]) - 1 and resolve_key(reset, c["c"][1 + i]) == k:
+                    clear_blocks.add(rpos[c["i"]][0])      # a helper that empties the container it is handed
+
         def nonempty(t_, k=k):
             t2 = strip(t_)
             if t2 is None:
